@@ -2,7 +2,7 @@ import XpmVerif.Proofs.Validate
 /-! C15 — parameters only ever hold values of their declared type; submit fails fast.
     Property theorems only (model: `Model/Validate.lean`, lemmas: `Proofs/Validate.lean`).
 
-    The model is parameterised by `Impl`, five behaviour switches of the source that the check probes on
+    The model is parameterised by `Impl`, six behaviour switches of the source that the check probes on
     the real code at every run (`Impl.current` = the source as found, `Impl.repaired` = with the proposed
     patches).  Each theorem names exactly the switch values it needs; the `…_witness` theorems show that
     the hypothesis cannot be dropped (they are the findings F10, F11 and the ones found with them). -/
